@@ -985,6 +985,18 @@ package server
 // a coordinator change carries the group epoch like every group operation; an accepted one is APPLIED - also to a group
 // that is being rebuilt by a replay (recovery mode only defers the liveness timers): a server that replays the change must
 // end with the coordinator and epoch of the servers that applied it live (C06)
+// Snapshot (C06: "Replay never ... brings back a stream that was deleted"): Raft may ask for a snapshot between two
+// applies, also while the log is being replayed, when a stream whose deletion has been replayed is still there,
+// tombstoned, until the replay ends. Such a stream does not exist at the snapshot's index: every stream is asked whether
+// it is tombstoned and only those that are not are stored
+//@ ghost var tombAsked bool
+//@ ghost var tombYes bool
+//@ func (*Server).Snapshot serves C06
+//@   assumes s != nil && s.metadata != nil
+//@   ghost at loop 1: ghost.tombAsked := false
+//@   ghost after call IsTombstoned: ghost.tombAsked := true
+//@   ghost after call IsTombstoned: ghost.tombYes := ret0
+//@   call (*stream).GetName requires [C06:a-stream-whose-deletion-has-been-replayed-is-not-stored] ghost.tombAsked && !ghost.tombYes
 //@ func (*consumerGroup).SetCoordinator serves C06, C12
 //@   assumes c != nil
 //@   ensures [stale-refused] epoch < old(c.epoch) ==> result != nil && c.epoch == old(c.epoch) && c.coordinator == old(c.coordinator)
